@@ -112,6 +112,79 @@ def rule_send(ctx):
                "`%s` distributes group secrets" % r, key="C35.3:who:%s" % r)
 
 
+def rule_monotone(ctx):
+    """C35.4 — a member's bundle of learned secrets only grows while group messages are processed: every value
+    stored into GroupState.secrets is the old bundle, or SecretBundle::insert / extend applied to the old bundle.
+    (Replacing it by a received bundle drops secrets the member learned earlier, e.g. a newer one from a
+    concurrent update: the member no longer holds the latest secret.)"""
+    from mir import field_writers
+    from facts import Place, op_place
+    ST = "p2panda_encryption::data_scheme::group::GroupState"
+    INS = ("p2panda_encryption::data_scheme::group_secret::SecretBundle::insert",
+           "p2panda_encryption::data_scheme::group_secret::SecretBundle::extend")
+    ws = [(b, bb, k) for b, bb, k, how in field_writers(ctx.prog, ST, "secrets") if how == "write"]
+    ctx.floor("C35.4", "assignments to GroupState.secrets", len(ws), 2)
+
+    def is_old(b, place):
+        return place is not None and any(isinstance(e, list) and e[0] == "f" and e[2] == "secrets" for e in place.proj)
+
+    def sources(b, local, seen):
+        """[(kind, detail)] over every reaching definition of a whole-local value"""
+        if local in seen:
+            return []
+        seen.add(local)
+        out = []
+        for d in b.defs_of(local):
+            if d[0] == "assign":
+                rv = d[3]
+                if rv["k"] == "use":
+                    q = op_place(rv["op"])
+                    if q is None:
+                        out.append(("const", "constant"))
+                    elif is_old(b, q):
+                        out.append(("old", "y.secrets"))
+                    elif not q.proj or all(e == "*" for e in q.proj):
+                        out.extend(sources(b, q.local, seen))
+                    else:
+                        out.append(("foreign", "%r" % q))
+                else:
+                    out.append(("foreign", rv["k"] + (":" + (rv.get("variant") or "") if rv["k"] == "agg" else "")))
+            elif d[0] == "call":
+                t = d[3]
+                nm = fname(t["func"])
+                if any(nm == n or nm.endswith(n.rsplit("::", 2)[-2] + "::" + n.rsplit("::", 1)[-1]) for n in INS):
+                    a0 = op_place(t["args"][0])
+                    if a0 is not None and (is_old(b, a0) or any(k == "old" for k, _ in sources(b, a0.local, set(seen)))):
+                        out.append(("grown", nm.rsplit("::", 1)[-1] + "(y.secrets, ..)"))
+                    else:
+                        out.append(("foreign", nm.rsplit("::", 1)[-1] + " on something else than y.secrets"))
+                else:
+                    out.append(("foreign", "result of " + nm.rsplit("::", 1)[-1]))
+        return out
+    from mir import fname
+    EXEMPT = {"p2panda_encryption::data_scheme::group::EncryptionGroup::update_secrets":
+              "explicit application API for forward secrecy (the caller's closure decides which secrets to drop); not part "
+              "of message processing"}
+    for b, bb, k in ws:
+        if b.root in EXEMPT:
+            ctx.note("C35.4 exempt: %s — %s" % (b.root, EXEMPT[b.root]))
+            continue
+        st = b.blocks[bb]["stmts"][k]
+        rv = st["rv"]
+        if rv["k"] != "use":
+            ctx.ob("C35.4", "secrets only grow:%s" % b.root.rsplit("::", 1)[-1], False, "y.secrets := %s" % rv["k"], site=b.loc(bb, k))
+            continue
+        q = op_place(rv["op"])
+        src = [("old", "y.secrets")] if is_old(b, q) else (sources(b, q.local, set()) if q is not None else [("const", "constant")])
+        bad = sorted({d for kind, d in src if kind not in ("old", "grown")})
+        ctx.ob("C35.4", "secrets only grow:%s" % b.root.rsplit("::", 1)[-1], bool(src) and not bad,
+               "`%s` stores %s into GroupState.secrets: the bundle of learned secrets must be the old bundle or "
+               "SecretBundle::insert / extend applied to it — replacing it drops secrets learned earlier (a member can "
+               "lose the latest secret it got through a concurrent update)" % (b.root, bad or "nothing traceable"),
+               site=b.loc(bb, k), key="C35.4:%s:secrets-only-grow" % b.root.rsplit("::", 1)[-1])
+        ctx.sample({"y.secrets := ": sorted({d for _, d in src}), "in": b.root.rsplit("::", 1)[-1]})
+
+
 def run(ctx):
     ctx.explanation = (
         "Partial (cut-off clause only). Decides: (1) EncryptionGroup::{create, remove, update}: SecretBundle::generate "
@@ -119,15 +192,17 @@ def run(ctx):
         "(passing secrets.latest() type-checks and is caught here); the same value is stored locally; (2) Dcgka::remove: "
         "the recipients handed to send_group_secret are members(&y) filtered by a closure whose table is false for the "
         "removed member and for ourselves; (3) send_group_secret encrypts the given secret only to elements of "
-        "`recipients` and addresses each direct message to that element; callers of send_group_secret. NOT decided: that "
+        "`recipients` and addresses each direct message to that element; callers of send_group_secret; (4) every value "
+        "stored into GroupState.secrets is the old bundle or SecretBundle::insert/extend applied to it (learned secrets "
+        "only grow). NOT decided: that "
         "all current members obtain and can use the latest secret (DCGKA/2SM behaviour over histories).")
-    for r in (rule_rotation, rule_recipients, rule_send):
+    for r in (rule_rotation, rule_recipients, rule_send, rule_monotone):
         ctx.guarded(lambda r=r: r(ctx), "C35")
 
 
 MANIFEST = {
     "category": "other",
-    "technique": "must-provenance (dominance + backward def-use) of the distributed secret, decision table of the recipient filter closure, who-may-call scan",
+    "technique": "must-provenance (dominance + backward def-use) of the distributed secret, decision table of the recipient filter closure, who-may-call scan, reaching-definition rule on GroupState.secrets (learned secrets only grow)",
     "text": "Partial: decides the structure that keeps a fresh secret away from a removed member (rotation on removal, recipient filtering, targeted encryption). Member agreement on the latest secret over histories is not decided.",
     "note": "Trusted: rustc MIR, driver, rule engine; 2SM encryption (encrypt_to) as an axiom.",
 }
